@@ -150,7 +150,7 @@ def bad_value(v):
 GAP_EXEMPT = {("Supertrend", "long"), ("Supertrend", "short")}
 
 
-def check_c09(rep, cfg, ind, case):
+def check_c09(rep, cfg, ind, case, gaps_allowed=False):
     kind = cfg.get("cls", cfg.get("analysis"))
     seen = {}
     for i, c in enumerate(ind.candles):
@@ -165,7 +165,7 @@ def check_c09(rep, cfg, ind, case):
             for f, x in fields:
                 if x is not None:
                     seen[f] = i
-                elif f in seen and (kind, f) not in GAP_EXEMPT:
+                elif f in seen and (kind, f) not in GAP_EXEMPT and not gaps_allowed:
                     rep.violation(f"C09|gap|{kind}|{f}", dict(case, oracle="gap", index=i, field=f, last_value_at=seen[f]))
                     return
     if seen:
@@ -360,6 +360,24 @@ def explore(item):
 
 # ------------------------------------------------------------------ readers fed by another indicator (C09 only)
 FED_SOURCES = [("SMA3", ""), ("RSI2", ""), ("ROC2", ""), ("MACD232", "MACD"), ("STOCH222", "k")]
+# series that are None again after they have started (set only while the trend points one way): for these the "no gaps" clause
+# cannot apply to the reader; "never raises" and "only finite values" do
+FED_SPARSE = [("ST2", "long"), ("ST2", "short")]
+SPARSE_KEY = "C09|fed-by-series-with-gaps|reader-raises-TypeError"
+
+
+def series_has_gaps(hx, sname):
+    """True iff, in the Hexital as it stands (i.e. at the moment the reader raised), the feeding series is None somewhere after
+    its first value - on any of its candle lists."""
+    from hexital.utils.candles import reading_by_candle
+    for cands in hx.get_candles().values():
+        started = False
+        for c in cands:
+            if reading_by_candle(c, sname) is not None:
+                started = True
+            elif started:
+                return True
+    return False
 
 
 def fed_readers():
@@ -401,6 +419,7 @@ def run_fed(rep, rlabel, slabel, sfield, tfc, fam, word, raw, horizon, prop="C09
     kind = rcfg.get("cls", rcfg.get("analysis"))
     for mode in ("append1", "batch"):
         case = {"cfg": rlabel, "fed": [slabel, sfield], "tfc": tfc, "fam": fam, "word": word, "raw": raw, "mode": mode}
+        hx = None
         try:
             with deadline(horizon):
                 if mode == "batch":
@@ -419,7 +438,10 @@ def run_fed(rep, rlabel, slabel, sfield, tfc, fam, word, raw, horizon, prop="C09
         except Exception as e:
             rep.inc("executions")
             if prop == "C09":
-                rep.violation(f"C09|raised|{kind}<-{slabel}|{type(e).__name__}", dict(case, oracle="raised", error=repr(e)))
+                sig = f"C09|raised|{kind}<-{slabel}|{type(e).__name__}"
+                if isinstance(e, TypeError) and hx is not None and series_has_gaps(hx, make(scfg).name + ("." + sfield if sfield else "")):
+                    sig = SPARSE_KEY  # known finding: identified by the input class (a feeding series with interior gaps), not by the reader
+                rep.violation(sig, dict(case, oracle="raised", error=repr(e)))
             else:
                 rep.inc("raised_handed_to_C09")
             continue
@@ -428,7 +450,7 @@ def run_fed(rep, rlabel, slabel, sfield, tfc, fam, word, raw, horizon, prop="C09
         ind = hx.indicator(rname)
         rep.add("states", canon_candles(ind.candles))
         if prop == "C09":
-            check_c09(rep, dict(rcfg, label=f"{rlabel}<-{slabel}"), ind, case)
+            check_c09(rep, dict(rcfg, label=f"{rlabel}<-{slabel}"), ind, case, gaps_allowed=(slabel, sfield) in FED_SPARSE)
         else:  # the relations are about the reader's own arithmetic, whatever series it is given
             check_c10(rep, dict(rcfg, label=f"{rlabel}<-{slabel}", kw=fed_kw(rcfg, scfg, sfield)), ind, case)
 
@@ -491,6 +513,11 @@ def main(prop, tier):
                         fitems.append((prop, tier, rl, sl, sf, tfc, ("abs", f)))
                     for f in sp["st_sigma"]:
                         fitems.append((prop, tier, rl, sl, sf, tfc, ("st", f)))
+            if prop == "C09":
+                for sl, sf in FED_SPARSE:  # the stutter family: runs long enough for the trend to flip and the window to straddle the flip
+                    for tfc in sp["tfcs"][:3]:
+                        for f in sp["st_sigma"]:
+                            fitems.append((prop, tier, rl, sl, sf, tfc, ("st", f)))
         reps += pmap(explore_fed, fitems, chunksize=4)
     rep = merge_all(reps)
     rule = ("every word of three stream families (absolute shapes sigma^n incl. flat-start prefixes; relative close steps "
@@ -499,11 +526,13 @@ def main(prop, tier):
             "every stored reading of the final state; non-trivial = distinct (config, timeframe config, word, mode) with at least one "
             "non-None top-level reading; additionally: every config that accepts a named input (input_value / indicator arguments) fed, "
             "inside a Hexital, by each of the sources SMA, RSI, ROC, MACD.MACD, STOCH.k (readings that start as None, can be 0 / 100 / negative) "
-            "over the absolute and stutter families, appended one by one and in batch")
+            "over the absolute and stutter families, appended one by one and in batch; C09 also with the sparse series Supertrend.long / .short "
+            "as the source (raising and value clauses only)")
     bounds = {k: v for k, v in sp.items() if k != "tfcs"}
     bounds["tfcs"] = [tfc_label(t) for t in tfcs]
     bounds["configs"] = len(CONFIGS)
     bounds["fed_sources"] = FED_SOURCES
+    bounds["fed_sparse_sources"] = FED_SPARSE
     bounds["variant"] = A.variant()
     return finish(prop, tier, rep, t0, rule=rule, bounds=bounds, replay_confirm=replay,
                   assumptions=["prices on the stated grids (finite, positive, low<=open,close<=high)", "periods 2-6"])
